@@ -12,13 +12,30 @@ func omitCriteria(
 	listener *model.BiasListener,
 ) (*model.DecisionMakingParams, *model.Criteria) {
 	omissionPartition := parsedProps.SplitCriteriaByOrdering(omissionOrderCriteria)
-	resultMethodParameters := (*listener).OnCriteriaRemoved(omissionPartition.Right, current.MethodParameters)
-	consideredAlternatives := model.PreserveCriteriaForAlternatives(&current.ConsideredAlternatives, omissionPartition.Right)
-	notConsideredAlternatives := model.PreserveCriteriaForAlternatives(&current.NotConsideredAlternatives, omissionPartition.Right)
+	// the ordering decides which criteria are omitted; the kept ones are handed on in the order they had before: the methods
+	// add floating point terms in the order of the criteria, and the decision has to equal the one without the omitted criteria
+	keptCriteria := inOrderOf(&current.Criteria, omissionPartition.Right)
+	resultMethodParameters := (*listener).OnCriteriaRemoved(keptCriteria, current.MethodParameters)
+	consideredAlternatives := model.PreserveCriteriaForAlternatives(&current.ConsideredAlternatives, keptCriteria)
+	notConsideredAlternatives := model.PreserveCriteriaForAlternatives(&current.NotConsideredAlternatives, keptCriteria)
 	return &model.DecisionMakingParams{
 		NotConsideredAlternatives: *notConsideredAlternatives,
 		ConsideredAlternatives:    *consideredAlternatives,
-		Criteria:                  *omissionPartition.Right,
+		Criteria:                  *keptCriteria,
 		MethodParameters:          resultMethodParameters,
 	}, omissionPartition.Left
+}
+
+func inOrderOf(ordered, selected *model.Criteria) *model.Criteria {
+	isSelected := make(map[string]bool, len(*selected))
+	for _, c := range *selected {
+		isSelected[c.Id] = true
+	}
+	result := make(model.Criteria, 0, len(*selected))
+	for _, c := range *ordered {
+		if isSelected[c.Id] {
+			result = append(result, c)
+		}
+	}
+	return &result
 }
